@@ -535,11 +535,12 @@ class Template(DirectiveFactory):
                             tmpl_inlined = True
                     if tmpl_inlined:
                         continue
+                    # Otherwise the include is performed at run time, possibly
+                    # by another template this one got inlined into: the
+                    # default class of the target is that of this template
                     if fallback:
-                        # Otherwise the include is performed at run time
-                        data = href, cls, list(
-                            self._prepare(fallback, inlined))
-                    yield kind, data, pos
+                        fallback = list(self._prepare(fallback, inlined))
+                    yield kind, (href, cls or self.__class__, fallback), pos
                 else:
                     yield kind, data, pos
 
